@@ -17,7 +17,13 @@ def make_call(module, func, params, mats, model, fill=None):
             ism = model.get('ismat(%s)' % name)
             if opt and model.get('given(%s)' % name) is False:
                 continue
-            if name in mats or ism is True:
+            if model.get('issp(%s)' % name) is True and ism is not True:
+                v = {'kind': 'spmatrix', 'name': name,
+                     'nrows': max(0, model.get(name + '.obj.nrows', 1)),
+                     'ncols': max(0, model.get(name + '.obj.ncols', 1)),
+                     'tc': TC.get(model.get(name + '.obj.id', 1), 'd')}
+            elif name in mats or (ism is True and name not in (
+                    'alpha', 'beta')):
                 if ism is False:
                     v = {'kind': 'none'}
                 else:
@@ -195,7 +201,9 @@ def replay_obligation(ob, meta, base, envs):
     if k == 'nooverflow':
         line = meta.get('line')
         hits = [l for l in res.get('ubsan', []) if '%s:' % meta['cfile'] in l]
-        lines = range(line or 0, (meta.get('line_end') or line or 0) + 1)
+        lo = min(x for x in (line, meta.get('line_start')) if x) if (
+            line or meta.get('line_start')) else 0
+        lines = range(lo, max(meta.get('line_end') or 0, line or 0) + 1)
         exact = [l for l in hits if any(':%s:' % x in l for x in lines)]
         conf = bool(exact) or (bool(hits) and line is None)
         info['ubsan'] = hits
